@@ -7,6 +7,7 @@ import translate_hedge
 import translate_ks
 import translate_mixins
 import translate_parametric
+import translate_free
 
 
 def gen_arith():
@@ -33,4 +34,8 @@ def gen_parametric():
     return translate_parametric.translate(os.path.join(PKG, "pba/pbox_parametric.py"), os.path.join(PKG, "pba/intervals/number.py"))
 
 
-ALL = [("GenParametric", gen_parametric), ("GenDispatch", gen_dispatch), ("GenArith", gen_arith), ("GenParams", gen_params), ("GenHedge", gen_hedge), ("GenKS", gen_ks)]
+def gen_free():
+    return translate_free.translate(os.path.join(PKG, "pba/pbox_free.py"))
+
+
+ALL = [("GenFree", gen_free), ("GenParametric", gen_parametric), ("GenDispatch", gen_dispatch), ("GenArith", gen_arith), ("GenParams", gen_params), ("GenHedge", gen_hedge), ("GenKS", gen_ks)]
